@@ -69,8 +69,20 @@ CHECKS = {
              "superposition of panels are cited, validated only by the bounded layer; trigonometric axioms instantiated per term.",
         technique="contract-based deductive verification: AST symbolic execution with symbolic sizes, reduction matching, differentiation operator, z3/cvc5; bounded run-time contracts as labelled stand-in"),
 }
+CHECKS["C06"] = dict(
+    category="proof",
+    text="_switch_func: loop invariant x in [-1,1] and fixed points for every order (symbolic trip count) plus step lemmas (odd, monotone); "
+         "_calculate_alpha bounded by the cutoff and antisymmetric for any number of atoms; nu-range, oddness and reverse-triangle lemmas; "
+         "generate_weights / compute_atom_weight executed on 2 and 3 atoms with symbolic geometry (switching function through its contract): "
+         "weights in [0,1], sum to one, own nucleus 1 / others 0, both routes identical, nan diagonal handled; __call__: the chunk slice and the "
+         "shifted/clipped segment table select the owner of every global point (symbolic N, M, chunk start). General atom counts follow by the "
+         "product/sum lemmas (stated, not machine-checked). Bounded layer: 1-8 atoms, all routes, several chunks, invariances, Hirshfeld.",
+    design="8/C06",
+    note=TRUST + "positive normaliser assumed in the sum-to-one clause (observed by the bounded layer); induction over the proved step lemmas; "
+         "Hirshfeld and invariances bounded only; recorded finding: nan weights for switching orders >= 8 (underflow).",
+    technique="contract-based deductive verification: AST symbolic execution (loop invariant with symbolic trip count, callee contracts, lemma chains), z3; bounded run-time contracts as labelled stand-in")
 BOUNDED_ONLY = {
-    "C06": ("8/C06", "Becke/Hirshfeld weights: bounds, partition of unity, nuclei values, all evaluation routes, rigid-motion/relabelling invariance, chunking with several chunks, radius fall-back for every Z"),
+    "C02": ("8/C02", "EXHAUSTIVE: all 450 shipped (method, degree) pairs built five ways; size/degree pair, unit-sphere, exactness for all (l,m) against an own Y_lm oracle (quick: full degree for files <= 16000 points, else l <= 40; thorough: full degree)"),
     "C08": ("8/C08", "real spherical harmonics against a 50+ digit closed-form oracle up to l=20 (thorough 60/90), both implementations, addition theorem, derivatives, solid harmonics, coordinate conversion"),
     "C11": ("8/C11", "PeriodicGrid local grids against brute-force image enumeration for dims 1-3 x 0..dim lattice vectors, skewed/negative/long/short cells, wrapped or not, empty spheres"),
     "C14": ("8/C14", "order generator exhaustively to order 10 (thorough 40) and Grid.moments for all four types against explicit fsum oracles, several centres, 1-3 dimensions, dipole helper"),
